@@ -306,6 +306,100 @@ theorem naive_sdp_feasible_for_separable {K : Type} [Fintype K] (j : ℕ) (p : K
   show σ (dec (sxEnc x)) (dec (sxEnc y)) = σ x y
   rw [hdec, hdec]
 
+/-! ## the irrep-block path: index helpers (`get_cvxpy_transpose0213_indexing`, the realignment, the block contraction) -/
+
+private theorem inShape4 {s0 s1 s2 s3 i0 i1 i2 i3 : Nat} (h0 : i0 < s0) (h1 : i1 < s1) (h2 : i2 < s2) (h3 : i3 < s3) :
+    InShape [i0, i1, i2, i3] [s0, s1, s2, s3] := .cons h0 (.cons h1 (.cons h2 (.cons h3 .nil)))
+
+/-- **`get_cvxpy_transpose0213_indexing` is the axis permutation it claims**: at position `(n1,n3,n0,n2)` (row-major in shape
+`(N1,N3,N0,N2)`) it holds the row-major position of `(n2,n3,n0,n1)` in shape `(N2,N3,N0,N1)` … -/
+theorem idx0213_entry (N0 N1 N2 N3 : Nat) {n0 n1 n2 n3 : Nat} (h0 : n0 < N0) (h1 : n1 < N1) (h2 : n2 < N2) (h3 : n3 < N3) :
+    idx0213 N0 N1 N2 N3 (flat [N1, N3, N0, N2] [n1, n3, n0, n2]) = flat [N2, N3, N0, N1] [n2, n3, n0, n1] := by
+  unfold idx0213
+  have hs : permShape [N2, N3, N0, N1] [3, 1, 2, 0] = [N1, N3, N0, N2] := rfl
+  have := npTranspose_flat [N2, N3, N0, N1] [3, 1, 2, 0] (id : Nat → Nat) [n1, n3, n0, n2] (by rw [hs]; exact inShape4 h1 h3 h0 h2)
+  rw [hs] at this
+  rw [this]
+  simp [transposeIn, List.range_succ, List.idxOf_cons]
+
+/-- … which is the column-major (`order='F'`) position of the entry `[(n0,n1),(n2,n3)]` of an `(N0·N1)×(N2·N3)` matrix -/
+theorem idx0213_target_is_Fflat (N0 N1 N2 N3 n0 n1 n2 n3 : Nat) :
+    flat [N2, N3, N0, N1] [n2, n3, n0, n1] = (n0 * N1 + n1) + (n2 * N3 + n3) * (N0 * N1) := by
+  simp [flat, prodL]; ring
+
+/-- **the realignment of the input state** (`is_ABk_symmetric_ext`, `get_ABk_symmetric_extension_boundary`):
+`out[(a,a'),(b,b')] = ρ[(a,b),(a',b')]` -/
+theorem sxRealign_entry {α : Type} (dA dB : Nat) (ρ : Nat → Nat → α) {a b a' b' : Nat}
+    (ha : a < dA) (hb : b < dB) (ha' : a' < dA) (hb' : b' < dB) :
+    sxRealign dA dB ρ (flat [dA, dA] [a, a']) (flat [dB, dB] [b, b']) = ρ (flat [dA, dB] [a, b]) (flat [dA, dB] [a', b']) := by
+  unfold sxRealign
+  rw [← prodL2 dB dB, ofFlat_flat_append _ (inShape2 ha ha')]
+  have hs : permShape [dA, dB, dA, dB] [0, 2, 1, 3] = [dA, dA] ++ [dB, dB] := rfl
+  have := npTranspose_flat [dA, dB, dA, dB] [0, 2, 1, 3] (toFlat (dA * dB) ρ) ([a, a'] ++ [b, b'])
+    (by rw [hs]; exact (inShape2 ha ha').append (inShape2 hb hb'))
+  rw [hs] at this
+  rw [this]
+  have ht : transposeIn [0, 2, 1, 3] ([a, a'] ++ [b, b']) = [a, b] ++ [a', b'] := by
+    simp [transposeIn, List.range_succ, List.idxOf_cons]
+  rw [ht, ← prodL2 dA dB]
+  exact toFlat_flat_append [dA, dB] ρ (inShape2 ha hb) (inShape2 ha' hb')
+
+/-- the constraint `cvx_rdm == cvx_rho` of the irrep-block SDP, un-realigned: the reduced state of the extension is the AB state -/
+theorem realigned_constraint_iff {α : Type} (dA dB : Nat) (rdm ρ : Nat → Nat → α) :
+    (∀ a < dA, ∀ a' < dA, ∀ b < dB, ∀ b' < dB,
+        rdm (flat [dA, dA] [a, a']) (flat [dB, dB] [b, b']) = sxRealign dA dB ρ (flat [dA, dA] [a, a']) (flat [dB, dB] [b, b']))
+      ↔ ∀ a < dA, ∀ a' < dA, ∀ b < dB, ∀ b' < dB,
+        rdm (flat [dA, dA] [a, a']) (flat [dB, dB] [b, b']) = ρ (flat [dA, dB] [a, b]) (flat [dA, dB] [a', b']) := by
+  constructor <;> intro h a ha a' ha' b hb b' hb'
+  · rw [h a ha a' ha' b hb b' hb', sxRealign_entry dA dB ρ ha hb ha' hb']
+  · rw [h a ha a' ha' b hb b' hb', sxRealign_entry dA dB ρ ha hb ha' hb']
+
+/-- the right-hand side `eye/(dA·dB) + β·direction` of `get_ABk_symmetric_extension_boundary` is the realignment of the ray point
+`1/N + β·ρ̂` (the realignment only moves entries) -/
+theorem extRaySigma_eq_realign_rayPoint {α : Type} [Add α] [Mul α] [Zero α] [One α] (dA dB : Nat) (invN β : α) (ρhat : Nat → Nat → α) :
+    extRaySigma dA dB invN β (sxRealign dA dB ρhat)
+      = sxRealign dA dB (fun r c => (if r = c then (1 : α) else 0) * invN + β * ρhat r c) := by
+  funext i j
+  simp only [extRaySigma, sxRealign, ofFlat, npTranspose, toFlat]
+
+/-- **the gather of one irrep block**: `tmp3[(a,a'),(i,j)] = P[(a,i),(a',j)]` (`P` indexed A-major, `x` = dimension of the block) -/
+theorem irrepGather_entry {α : Type} (dA x : Nat) (P : Nat → Nat → α) {a a' i j : Nat} (ha : a < dA) (ha' : a' < dA) (hi : i < x) (hj : j < x) :
+    irrepGather dA x P (flat [dA, dA] [a, a']) (flat [x, x] [i, j]) = P (flat [dA, x] [a, i]) (flat [dA, x] [a', j]) := by
+  unfold irrepGather
+  have hpos : flat [dA, dA] [a, a'] + flat [x, x] [i, j] * (dA * dA) = flat [x, x, dA, dA] [i, j, a, a'] := by
+    simp [flat, prodL]; ring
+  rw [hpos, idx0213_entry dA x dA x ha hi ha' hj, idx0213_target_is_Fflat]
+  unfold flatF
+  have hlt : a * x + i < x * dA := by
+    calc a * x + i < a * x + x := by omega
+      _ = (a + 1) * x := by ring
+      _ ≤ dA * x := Nat.mul_le_mul_right _ ha
+      _ = x * dA := Nat.mul_comm _ _
+  have e1 : (a * x + i + (a' * x + j) * (dA * x)) % (x * dA) = a * x + i := by
+    rw [Nat.mul_comm dA x, Nat.add_mul_mod_self_right, Nat.mod_eq_of_lt hlt]
+  have e2 : (a * x + i + (a' * x + j) * (dA * x)) / (x * dA) = a' * x + j := by
+    rw [Nat.mul_comm dA x, Nat.add_mul_div_right _ _ (by omega : 0 < x * dA), Nat.div_eq_of_lt hlt, Nat.zero_add]
+  rw [e1, e2]
+  simp [flat, prodL]
+
+/-- **the reduced-state contribution of one irrep block** is `Σ_{i,j} P[(a,i),(a',j)]·coeffB[i,j,·]` -/
+theorem irrepBlockRdm_entry {α : Type} [CommSemiring α] (dA x dB : Nat) (P : Nat → Nat → α) (C : Nat → α) {a a' : Nat} (ha : a < dA)
+    (ha' : a' < dA) (c : Nat) :
+    irrepBlockRdm dA x dB P C (flat [dA, dA] [a, a']) c
+      = ∑ i ∈ Finset.range x, ∑ j ∈ Finset.range x, P (flat [dA, x] [a, i]) (flat [dA, x] [a', j]) * C ((i * x + j) * (dB * dB) + c) := by
+  unfold irrepBlockRdm
+  rw [sumRange_eq_sum]
+  have hdm : ∀ t, irrepGather dA x P (flat [dA, dA] [a, a']) t * C (t * (dB * dB) + c)
+      = irrepGather dA x P (flat [dA, dA] [a, a']) (t / x * x + t % x) * C ((t / x * x + t % x) * (dB * dB) + c) :=
+    fun t => by rw [Nat.div_add_mod']
+  rw [Finset.sum_congr rfl fun t _ => hdm t,
+    sum_range_mul_divmod x x fun i j => irrepGather dA x P (flat [dA, dA] [a, a']) (i * x + j) * C ((i * x + j) * (dB * dB) + c)]
+  refine Finset.sum_congr rfl fun i hi => Finset.sum_congr rfl fun j hj => ?_
+  have := irrepGather_entry dA x P ha ha' (Finset.mem_range.1 hi) (Finset.mem_range.1 hj)
+  have hf : flat [x, x] [i, j] = i * x + j := by simp [flat, prodL]
+  rw [hf] at this
+  rw [this]
+
 /-! ## the executable witness of the model is that extension -/
 
 private theorem foldl_mul_eq_prod (f : Nat → ℂ) (l : List Nat) (acc : ℂ) :
